@@ -189,7 +189,8 @@ def table_of(ctx, body, term):
 PURE_SUFFIXES = ("Deref>::deref", "DerefMut>::deref_mut", "::keys", "::values", "::iter", "::len", "::is_empty", "Iterator::collect", "Iterator>::collect",
                  "mem::drop", "Argument::new_debug", "Argument::new_display", "Argument::new_lower_hex", "Arguments::new", "Arguments::new_const", "fmt::format", "hint::must_use",
                  "Clone>::clone", "::as_ref", "::as_str", "::to_string", "ToString>::to_string", "::id", "Into>::into", "From>::from", "IntoIterator>::into_iter",
-                 "::from_utf8_lossy", "::is_closed", "::as_bytes", "::to_owned", "::to_vec", "::elapsed", "::as_secs_f64", "::as_secs", "::as_millis", "Display>::fmt", "Debug>::fmt")
+                 "::from_utf8_lossy", "::is_closed", "::as_bytes", "::to_owned", "::to_vec", "::into_owned", "::into_boxed_str", "::into_string", "::as_slice", "Cow<'_, B>>::into_owned",
+                 "::trim", "::trim_end", "::trim_start", "::chars", "::bytes", "::char_indices", "::is_char_boundary", "::floor_char_boundary", "str::get", "::starts_with", "::ends_with", "::contains", "::elapsed", "::as_secs_f64", "::as_secs", "::as_millis", "Display>::fmt", "Debug>::fmt")
 
 
 def effectful_calls(body, region):
